@@ -412,6 +412,11 @@ fn cause(s0: &str, b: &Bad) -> String {
     if float_printed_as_int(b) {
         return "integral-float-printed-without-fraction".into();
     }
+    // `func x -> x -> y -> x + y` parses as three statements, two of them parameterless functions; written
+    // back one per paragraph they come back as two
+    if (b.key == "tree-changed-by-formatting" || b.key == "not-idempotent") && b.why.contains("\\n\\nfunc -> ") {
+        return "parameterless-function-statements-merge-when-reparsed".into();
+    }
     b.key.clone() + &cause_suffix(s0, b)
 }
 
